@@ -78,6 +78,7 @@ THEOREMS = ["OllamaVerif.C18." + t for t in (
     "SampleWith_topK", "sampleWith_admissible", "sampleWith_admissible_fixed_on",
     "newParams_in_range", "xClampLawsOn", "arith_contracts_of_ranges", "cumsum_nonneg", "xMulLawsOn",
     "scale_contract_of_laws", "guard_of_laws", "contracts_after_shift", "isDesc_head_max", "xScaleLawsOn", "xBeqRefl",
+    "shift_desc", "shift_contract_of_laws", "isDesc_of_pairwise", "shift_scale_contracts_of_laws", "xShiftLawsOn",
     "deterministic", "hist_nth", "Sample_indep_r", "stream_of_seed", "grammar_step_spec",
     "grammar_retry_admissible_partial", "grammar_retry_admissible_fixed_partial", "grammar_retry_greedy",
     "masked_not_neginf_accepted", "maskLogits_get", "F18_nan_instead_of_token", "F18_guard_fails",
@@ -293,7 +294,12 @@ def run(ctx):
         "`_on` forms (relativised laws OrdLawsOn / ArithLawsOn / BeqLawOn, instantiated on the witness carrier with NaN and "
         "+-Inf; guards: noNaN logits for the order-only clauses, the run guard runGood — no NaN is ever compared — for the "
         "weighted path; both guards are evaluated on every sampled run, flag `nan` of the contract status). That IEEE float32 "
-        "itself satisfies the relativised laws is not proved in Lean (Float32 is opaque)",
+        "itself satisfies the relativised laws is not proved in Lean (Float32 is opaque). Named IEEE laws assumed of the "
+        "carrier (each with an instance on the witness carrier): OrdLawsOn, BeqLawOn, ArithLawsOn (x+0, NaN absorbing), "
+        "ClampLawsOn, MulLawsOn (a*p <= a for 0<=p<=1), ScaleLawsOn (division by a finite positive number is monotone, keeps "
+        "-Inf and the sign), ShiftLawsOn (subtraction of the maximum is monotone, non-positive, keeps -Inf, no NaN unless "
+        "equal); from them guardOK, both scaleOK contracts, no-NaN-after-the-shift and the two arithmetic contracts are "
+        "DERIVED (shift_scale_contracts_of_laws, arith_contracts_of_ranges); softmaxOK and runGood stay per-run contracts",
         "reproducibility is claimed modulo the order slices.SortFunc (pdqsort) gives tokens with EQUAL logits when more "
         "than 12 candidates are sorted (top-k off): not modelled, compared modulo that order; one Sampler is used by one "
         "goroutine (the runner gives every sequence its own, Tie.C18.callsites_wired)",
